@@ -93,6 +93,8 @@ impl Runtime {
 
         let proc = Process::new(&proc_id, self);
         proc.load(&w)?;
+        // the duplicate check above must see this process from now on, not only once launched
+        self.cache.reserve_proc(&proc);
         self.launch(&proc);
 
         Ok(proc)
